@@ -11,30 +11,15 @@ Import ListNotations.
 Lemma marker_fixed : pauli_marker_to_temp = true. Proof. reflexivity. Qed.
 Lemma listified_fixed : str_basis_listified = true. Proof. reflexivity. Qed.
 Lemma passes_ok : passes_complete = true. Proof. vm_compute. reflexivity. Qed.
-Lemma kslices_cover : forall k, In k kinds -> In k (kslice 0 ++ kslice 1 ++ kslice 2 ++ kslice 3).
-Proof.
-  assert (H : forallb (fun k => existsb (fun k' => String.eqb (fst k) (fst k')) (kslice 0 ++ kslice 1 ++ kslice 2 ++ kslice 3)) kinds = true)
-    by (vm_compute; reflexivity).
-  assert (N : NoDup (map fst kinds)) by (vm_compute; repeat (constructor; [simpl; intuition discriminate|]); constructor).
-  intros k Hk. rewrite forallb_forall in H. specialize (H k Hk). apply existsb_exists in H. destruct H as [k' [Hk' E]].
-  apply String.eqb_eq in E.
-  assert (Hk'' : In k' kinds).
-  { repeat (apply in_app_or in Hk'; destruct Hk' as [Hk'|Hk']); unfold kslice in Hk'; apply filter_In in Hk'; tauto. }
-  assert (k = k').
-  { clear - N E Hk Hk''. revert N Hk Hk''. generalize kinds. induction l as [|x l IH]; intros N H1 H2; [destruct H1|].
-    simpl in N. inversion N as [|? ? Hx Hl]; subst. destruct H1 as [->|H1]; destruct H2 as [->|H2]; try reflexivity.
-    - exfalso. apply Hx. rewrite E. apply in_map. exact H2.
-    - exfalso. apply Hx. rewrite <- E. apply in_map. exact H1.
-    - exact (IH Hl H1 H2). }
-  subst k'. exact Hk'.
-Qed.
+Lemma kslices_eq : kinds = kslice 0 ++ kslice 1 ++ kslice 2 ++ kslice 3.
+Proof. reflexivity. Qed.
 Lemma rules_ok : forallb check_rule kinds = true. Proof. vm_compute. reflexivity. Qed.
 Lemma basis_ok : forallb (fun c => negb (valid_cfg c) || forallb (check_basis c) kinds) all_cfgs = true.
 Proof. vm_compute. reflexivity. Qed.
 Lemma success_ok : forallb (fun c => negb (valid_cfg c) || forallb (check_ok c) kinds) all_cfgs = true.
 Proof. vm_compute. reflexivity. Qed.
 
-Lemma cover_ok : forallb (fun k => forallb (fun c => memc (canon c k) (canons k)) all_cfgs) kinds = true.
+Lemma cover_ok : cover_all all_cfgs kinds = true.
 Proof. vm_compute. reflexivity. Qed.
 Lemma agree_ok : forallb (fun k => forallb (fun c => agree c (canon c k) (dispatched k)) all_cfgs) kinds = true.
 Proof. vm_compute. reflexivity. Qed.
@@ -54,7 +39,12 @@ Proof.
 Qed.
 Lemma obl_in l k c : obls_ok l = true -> In k l -> In c (canons k) -> check_sem c k = true.
 Proof.
-  unfold obls_ok. intros H Hk Hc. rewrite forallb_forall in H. specialize (H k Hk). unfold obl_ok in H.
+  unfold obls_ok. intros H Hk Hc. rewrite forallb_forall in H. specialize (H k Hk).
+  rewrite forallb_forall in H. exact (H c Hc).
+Qed.
+Lemma cover_in l ks k c : cover_all l ks = true -> In k ks -> In c l -> memc (canon c k) (canons k) = true.
+Proof.
+  unfold cover_all. intros H Hk Hc. rewrite forallb_forall in H. specialize (H k Hk). unfold covered in H.
   rewrite forallb_forall in H. exact (H c Hc).
 Qed.
 
@@ -97,7 +87,7 @@ Proof.
   { unfold to_universal. rewrite <- H1.
     change (((gname (snd p) =? "SWAP")%string && mem "ISWAP" (c2q c'))) with ((String.eqb (gname (snd p)) "SWAP" && mem "ISWAP" (c2q c'))).
     rewrite <- H2. reflexivity. }
-  rewrite EU. destruct (to_universal c' keep (snd p)) as [gs|]; cbn [rbind]; [|reflexivity].
+  rewrite EU. destruct (to_universal c' keep (snd p)) as [gs|]; cbn [rbind fst snd]; [|reflexivity].
   rewrite (stage2_first c c' _ H3). destruct (stage2 c' (fst p ++ gs)) as [q|]; cbn [rbind]; [|reflexivity].
   apply stage3_same; assumption.
 Qed.
@@ -114,8 +104,9 @@ Qed.
 Lemma check_sem_true c k : In c all_cfgs -> In k kinds -> check_sem c k = true.
 Proof.
   intros Hc Hk. rewrite (check_sem_canon c k Hc Hk).
-  apply (obl_in _ k (canon c k) obls_all (kslices_cover k Hk)).
-  apply memc_in. exact (forallb2_in (fun k c => memc (canon c k) (canons k)) kinds all_cfgs k c cover_ok Hk Hc).
+  assert (Hk' : In k (kslice 0 ++ kslice 1 ++ kslice 2 ++ kslice 3)) by (rewrite <- kslices_eq; exact Hk).
+  apply (obl_in _ k (canon c k) obls_all Hk').
+  apply memc_in. exact (cover_in all_cfgs kinds k c cover_ok Hk Hc).
 Qed.
 
 Lemma guarded_in {A B} (v : A -> bool) (F : A -> B -> bool) (la : list A) (lb : list B) a b :
